@@ -183,3 +183,18 @@ V('C04-exact-test-all-rows', 'C04', BA, "            (x0, y0, x1, y1), overlaps_
 V('C04-take-copies-sindex', ['C04', 'C16'], BA, "        return self.__class__(self.data.take(indices), dtype=self.dtype)", "        result = self.__class__(self.data.take(indices), dtype=self.dtype)\n        result._sindex = self._sindex\n        return result", rule=None, rules={'C04': 'C04.d', 'C16': 'C16.c'})
 V('C04-geoseries-cx-no-parent', 'C04', 'spatialpandas/geoseries.py', "        return _CoordinateIndexer(self.array, parent=self)", "        return _CoordinateIndexer(self.array)", rule='C04.c')
 V('C04-silent-swap-mirrored', 'C04', BA, "        if x1 < x0:\n            x0, x1 = x1, x0\n        if y1 < y0:", "        if x0 > x1:\n            x1, x0 = x0, x1\n        if y1 < y0:", expect='silent')
+
+# ------------------------------------------------------------------------------------------------ C05
+V('C05-bbox-only-pairs', 'C05', SJ, "            intersecting_inds = candidate_inds[intersecting_mask]", "            intersecting_inds = candidate_inds", rule='C05.a')
+V('C05-mask-other-inds', 'C05', SJ, "            intersecting_mask = left_geom.intersects(right_shape, inds=candidate_inds)", "            intersecting_mask = left_geom.intersects(right_shape)[candidate_inds - 1]", rule='C05.a')
+V('C05-neighbour-shape', 'C05', SJ, "            right_shape = right_geom[i]", "            right_shape = right_geom[i - 1]", rule='C05.b')
+V('C05-right-key-const', 'C05', SJ, "            right_inds[i] = np.full(len(intersecting_inds), i)", "            right_inds[i] = np.full(len(intersecting_inds), 0)", rule='C05.b')
+V('C05-left-chain-inner-merge', 'C05', SJ, "            left_df.merge(\n                result, left_index=True, right_index=True, how=\"left\"\n            ).merge(", "            left_df.merge(\n                result, left_index=True, right_index=True\n            ).merge(", rule='C05.c')
+V('C05-left-chain-second-inner', 'C05', SJ, "                right_df.drop(right_df.geometry.name, axis=1),\n                how=\"left\",", "                right_df.drop(right_df.geometry.name, axis=1),\n                how=\"inner\",", rule='C05.c')
+V('C05-inner-chain-outer', 'C05', SJ, "            left_df.merge(\n                result, left_index=True, right_index=True\n            ).merge(", "            left_df.merge(\n                result, left_index=True, right_index=True, how=\"outer\"\n            ).merge(", rule='C05.c')
+V('C05-right-chain-suffix-swap', 'C05', SJ, "                right_on=\"_key_left\",\n                suffixes=(f\"_{lsuffix}\", f\"_{rsuffix}\"),", "                right_on=\"_key_left\",\n                suffixes=(f\"_{rsuffix}\", f\"_{lsuffix}\"),", rule='C05.c')
+V('C05-right-chain-key-swap', 'C05', SJ, "                    right_df, left_on=\"_key_right\", right_index=True, how=\"right\"", "                    right_df, left_on=\"_key_left\", right_index=True, how=\"right\"", rule='C05.c')
+V('C05-right-chain-inner', 'C05', SJ, "                    right_df, left_on=\"_key_right\", right_index=True, how=\"right\"", "                    right_df, left_on=\"_key_right\", right_index=True, how=\"inner\"", rule='C05.c')
+V('C05-right-keeps-left-geometry', 'C05', SJ, "            left_df.drop(\n                left_df.geometry.name, axis=1\n            ).merge(\n                result.merge(", "            left_df.merge(\n                result.merge(", rule='C05.c')
+V('C05-index-restore-wrong-side', 'C05', SJ, "            ).set_index(\n                index_right\n            )", "            ).set_index(\n                index_left\n            )", rule='C05.c')
+V('C05-silent-left-then-inner', 'C05', SJ, "            left_df.merge(\n                result, left_index=True, right_index=True\n            ).merge(", "            left_df.merge(\n                result, left_index=True, right_index=True, how=\"right\"\n            ).merge(", expect='silent')
